@@ -34,6 +34,7 @@ SOFTWARE.
 
 #%%
 import numpy as np
+import re
 from fractions import Fraction
 from . import _n_word_max
 
@@ -490,32 +491,26 @@ def scale_raw(val, shift, exact=None):
     return val * 2**shift
 
 def get_sizes_from_dtype(dtype):
-    if isinstance(dtype, str):
-        # `fxp-<sign><n_word>/<n_frac>` with an optional `-complex` suffix, as rendered in Fxp.dtype
-        # (n_frac may be negative, so the string is not split at every '-')
-        head, _, props = dtype.partition('-')
-        if head == 'fxp':
-            # sign
-            if props[:1] == 's':
-                signed = True
-            elif props[:1] == 'u':
-                signed = False
-            else:
-                raise ValueError('dtype sign specifier should be `s` or `u`')
-
-            # sizes
-            if props.endswith('-complex'):
-                props = props[:-len('-complex')]
-
-            n_word, n_frac = props[1:].split('/')
-            n_word = int(n_word)
-            n_frac = int(n_frac)
-        else:
-            raise ValueError('dtype str format must be fxp-<sign><n_word>/<n_frac>-<complex>')
-    else:
+    """
+    Returns (signed, n_word, n_frac) of a dtype string in any spelling the Fxp constructor accepts: `fxp-<sign><n_word>/<n_frac>`
+    (with an optional `-complex` suffix) or the Q / UQ / S / U notation, in any letter case.
+    """
+    if not isinstance(dtype, str):
         raise ValueError('dtype must be a str!')
-
-    return signed, n_word, n_frac
+    fmt = dtype.casefold()
+    mo = re.match(r'(s|u|q|uq|qu)(\d+)(\.[+-]?\d+)?', fmt)
+    if mo:
+        # Q/S notation counts the sign bit as an integer bit
+        signed = mo.group(1) in 'sq'
+        n_frac = 0 if mo.group(3) is None else int(mo.group(3)[1:])
+        n_word = int(mo.group(2)) + n_frac
+        return signed, n_word, n_frac
+    mo = re.match(r'fxp-(s|u)(\d+)/([+-]?\d+)(-complex)?', fmt)
+    if mo:
+        return mo.group(1) == 's', int(mo.group(2)), int(mo.group(3))
+    if fmt.startswith('fxp-') and fmt[4:5] not in ('s', 'u'):
+        raise ValueError('dtype sign specifier should be `s` or `u`')
+    raise ValueError('dtype str format must be fxp-<sign><n_word>/<n_frac>-<complex>')
 
 
 # def int_array(x):
